@@ -408,9 +408,9 @@ def fixup_ast_from_modifications(transformed_ast: ast.AST, original_ast: ast.Cal
                 return node
 
             self._update_copy()
-            n_old_args = len(orig_ast.args)
-            for a in node.args[n_old_args:]:
-                orig_ast.args.append(a)
+            # The call site as it is now replaces the one that was written: arguments that
+            # were added, and any that a callback replaced.
+            orig_ast.args = list(node.args)
             orig_ast.func = node.func
             orig_ast.keywords = node.keywords
 
